@@ -5,6 +5,7 @@ CONSTANTS
   HasTimeout = {j1}
   IgnoresTerm = {}
   PopenMayFail = {j2}
+  PreFix = FALSE
   CoarseCancel = TRUE
   Modes = {"none", "nowait", "wait"}
 PROPERTIES ResultEventually WaitReturns ShutdownReturns Termination
